@@ -132,4 +132,54 @@ def runDeposit (_inp : List String) (out : String) : Option Res :=
   some { agree := sc.ok, monitor := ok && sc.ok && sc.invOk && !sc.halted && !sc.rejected, nontrivial := !okIds.isEmpty, model := "",
          note := if note != "" then note else sc.note }
 
+/-- C17 on the implementation's own observations:
+(a) every honest proposal (built by the real PrepareProposal from the commit, untampered) is accepted and executes;
+(b) every tampered proposal whose bridge data differs is rejected; (c) no handler panics;
+(d) an operator's EVM address, once registered, never changes and is the address of its own key;
+(e) every stored validator-set signature was sent by the validator owning that slot (same checkpoint, same bytes). -/
+def runProposal (_inp : List String) (out : String) : Option Res :=
+  let recs := out.splitOn " ;; "
+  let keys : List (String × String) := ((recs.filter (·.startsWith "K ")).headD "K ").drop 2 |>.toString |> commaList |>.filterMap
+    (fun kv => match kv.splitOn "=" with | [o, a] => some (o, a) | _ => none)
+  let init : Bool × String × List (String × String) × List String × List String × Nat × Nat := (true, "", [], [], [], 0, 0)
+  let (ok, note, _, _, _, nTamper, nHostile) := recs.foldl (fun acc rec =>
+    let (ok, note, evm, sigsSeen, sentAll, nT, nH) := acc
+    if !ok then acc else
+    let fs := fieldsOf rec
+    if rec.startsWith "P " then
+      let prep := (getF fs "prep").getD ""
+      let proc := (getF fs "proc").getD ""
+      let err := (getF fs "err").getD ""
+      let tamper := (getF fs "tamper").getD "-"
+      let changed := (getF fs "changed") == some "1"
+      let exts := (getF fs "exts").getD ""
+      let panicky := (prep.splitOn "panic").length > 1 || (proc.splitOn "panic").length > 1 || (err.splitOn "panic").length > 1
+      let good := !panicky && (if tamper == "-" then prep == "ok" && proc == "ACCEPT" && err == "" else (!changed || proc == "REJECT"))
+      (good, if good then note else s!"proposal: {rec.take 200}", evm, sigsSeen, sentAll, nT + (if tamper != "-" && changed then 1 else 0), nH + (if exts != "" then 1 else 0))
+    else if rec.startsWith "X " then
+      let evmNow := (commaList ((getF fs "evm").getD "")).filterMap (fun kv => match kv.splitOn "=" with | [o, a] => some (o, a) | _ => none)
+      -- (d)
+      let stable := evm.all (fun (o, a) => evmNow.any (fun (o', a') => o == o' && a == a'))
+      let own := evmNow.all (fun (o, a) => keys.any (fun (o', a') => o == o' && a == a'))
+      -- (e)
+      let sigsNow := commaList ((getF fs "sigs").getD "")
+      let prevs := (commaList ((getF fs "prevs").getD "")).filterMap (fun p => match p.splitOn ":" with
+        | [ts, _idx, addrs] => some (ts, addrs.splitOn "/") | _ => none)
+      let newSigs := sigsNow.filter (fun x => !sigsSeen.contains x)
+      let slotOk := newSigs.all (fun x => match x.splitOn "=" with
+        | [slot, sig] => (match slot.splitOn ":" with
+          | [ts, idx] =>
+            let addr := ((prevs.find? (·.1 == ts)).bind (fun p => p.2[(parseNat? idx).getD 0]?)).getD ""
+            -- some validator whose registered address is `addr` sent exactly (ts, sig)
+            sentAll.any (fun snt => match snt.splitOn ":" with
+              | [op, ts', sig'] => ts' == ts && sig' == sig && evmNow.any (fun (o, a) => o == op && a == addr)
+              | _ => false)
+          | _ => false)
+        | _ => false)
+      let sentNow := commaList ((getF fs "sent").getD "")
+      let good := stable && own && slotOk
+      (good, if good then note else s!"pre-block state (stable={stable} own={own} slots={slotOk}): {rec.take 160}", evmNow, sigsNow, sentAll ++ sentNow, nT, nH)
+    else acc) init
+  some { agree := true, monitor := ok, nontrivial := decide (nTamper ≥ 1 ∨ nHostile ≥ 2), model := "", note := note }
+
 end Driver
